@@ -143,10 +143,35 @@ theorem wrap32_I32 (x : Int) : I32 (wrap32 x) := by unfold I32 wrap32; omega
 
 theorem wrap32_id (x : Int) (h : I32 x) : wrap32 x = x := by unfold I32 at h; unfold wrap32; omega
 
+theorem inv_newStream (s : State) (st : St) (id : Nat) (l : List H) (h : Inv s) (hst : StOK st)
+    (hodd : id % 2 = 1) (hgt : s.maxId < id) :
+    Inv { s with kick := false, maxId := id, streams := s.streams ++ [st], handlers := l, cur := s.cur + 1,
+                 opened := s.opened ++ [id] } := by
+  refine ⟨h.1, h.2, h.3, ?_, ?_, ?_⟩
+  · intro x hx
+    rcases List.mem_append.mp hx with hx | hx
+    · exact h.4 x hx
+    · simp only [List.mem_singleton] at hx
+      subst hx
+      exact hst
+  · intro x hx
+    rcases List.mem_append.mp hx with hx | hx
+    · have := h.5 x hx
+      exact ⟨by show x ≤ id; omega, this.2⟩
+    · simp only [List.mem_singleton] at hx
+      subst hx
+      exact ⟨Nat.le_refl _, hodd⟩
+  · refine List.pairwise_append.mpr ⟨h.6, List.pairwise_singleton _ _, ?_⟩
+    intro a ha b hb
+    simp only [List.mem_singleton] at hb
+    subst hb
+    have := (h.5 a ha).1
+    omega
+
 theorem inv_step (s : State) (e : Ev) (h : Inv s) : Inv (step s e).st := by
   have h0 : Inv { s with kick := false } := inv_kick s false h
   cases e with
-  | syn id fin =>
+  | syn id fin meth cl =>
     simp only [step]
     split
     · exact h0
@@ -160,32 +185,16 @@ theorem inv_step (s : State) (e : Ev) (h : Inv s) : Inv (step s e).st := by
             have : ¬ id < s.maxId := fun hh => hbad (Or.inr hh)
             have : id ≠ s.maxId := heq
             omega
-          simp only [apply_ite Res.st, ite_self]
-          have key : True := trivial
-          · 
-            refine ⟨h.1, h.2, h.3, ?_, ?_, ?_⟩
-            · intro st hst
-              rcases List.mem_append.mp hst with hst | hst
-              · exact h.4 st hst
-              · simp only [List.mem_singleton] at hst
-                subst hst
-                refine ⟨by show (0 : Int) ≤ 65536; omega, by show (65536 : Int) + ((0 : Nat) : Int) ≤ 65536; omega, ?_⟩
-                cases hfa : flowAdd 0 s.iws with
-                | none => simp [I32]
-                | some v => exact (flowAdd_sound 0 s.iws v (by simp [I32]) h.3 hfa).2
-            · intro x hx
-              rcases List.mem_append.mp hx with hx | hx
-              · have := h.5 x hx
-                exact ⟨by show x ≤ id; omega, this.2⟩
-              · simp only [List.mem_singleton] at hx
-                subst hx
-                exact ⟨Nat.le_refl _, hodd⟩
-            · refine List.pairwise_append.mpr ⟨h.6, List.pairwise_singleton _ _, ?_⟩
-              intro a ha b hb
-              simp only [List.mem_singleton] at hb
-              subst hb
-              have := (h.5 a ha).1
-              omega
+          have hflow : I32 ((flowAdd 0 s.iws).getD 0) := by
+            cases hfa : flowAdd 0 s.iws with
+            | none => simp [I32]
+            | some v => exact (flowAdd_sound 0 s.iws v (by simp [I32]) h.3 hfa).2
+          have key := fun (st : St) (hst : StOK st) (l : List H) => inv_newStream s st id l h hst hodd hgt
+          split
+          · exact key _ ⟨by show (0 : Int) ≤ 65536; omega, by show (65536 : Int) + ((0 : Nat) : Int) ≤ 65536; omega, hflow⟩ _
+          · split
+            · exact inv_reset _ _ _ (key _ ⟨by show (0 : Int) ≤ 65536; omega, by show (65536 : Int) + ((0 : Nat) : Int) ≤ 65536; omega, hflow⟩ _)
+            · exact key _ ⟨by show (0 : Int) ≤ 65536; omega, by show (65536 : Int) + ((0 : Nat) : Int) ≤ 65536; omega, hflow⟩ _
   | data id len fin =>
     simp only [step]
     split
@@ -197,42 +206,56 @@ theorem inv_step (s : State) (e : Ev) (h : Inv s) : Inv (step s e).st := by
         split
         · exact inv_reset _ _ _ h0
         · split
+          · exact inv_reset _ _ _ h0
           · split
-            · exact inv_reset _ _ _ h0
-            · rename_i hav
-              cases hft : flowTake st.inflow s.connIn len with
-              | none => exact h0
-              | some ic =>
-                obtain ⟨i, c⟩ := ic
-                simp only []
-                unfold flowTake at hft
-                split at hft
-                · cases hft
-                · rename_i hle
-                  simp only [Option.some.injEq, Prod.mk.injEq] at hft
-                  have hc : c = wrap32 (s.connIn - len) := hft.2.symm
-                  have hst := h.4 st (find_mem _ id st hf)
-                  have hcl : (len : Int) ≤ s.connIn := by
-                    unfold available at hle; split at hle <;> omega
-                  have hcn := h.1
-                  apply inv_updSt
-                  · refine ⟨?_, h.2, h.3, h.4, h.5, h.6⟩
-                    show 0 ≤ c ∧ c ≤ 2147483647
-                    subst hc; unfold wrap32; omega
-                  · intro x hx
+            · split
+              · exact inv_reset _ _ _ h0
+              · rename_i hav
+                cases hft : flowTake st.inflow s.connIn len with
+                | none => exact h0
+                | some ic =>
+                  obtain ⟨i, c⟩ := ic
+                  simp only []
+                  unfold flowTake at hft
+                  split at hft
+                  · cases hft
+                  · rename_i hle
+                    simp only [Option.some.injEq, Prod.mk.injEq] at hft
+                    have hc : c = wrap32 (s.connIn - len) := hft.2.symm
+                    have hcl : (len : Int) ≤ s.connIn := by
+                      unfold available at hle; split at hle <;> omega
+                    have hcn := h.1
+                    have hs2 : Inv (updSt { ({ s with kick := false } : State) with connIn := c } id fun x =>
+                        if (len : Int) ≤ x.inflow then
+                          { x with inflow := wrap32 (x.inflow - len), buf := x.buf + len, isOpen := x.isOpen && !fin,
+                                   eof := x.eof || fin, got := x.got + len }
+                        else x) := by
+                      apply inv_updSt
+                      · refine ⟨?_, h.2, h.3, h.4, h.5, h.6⟩
+                        show 0 ≤ c ∧ c ≤ 2147483647
+                        subst hc; unfold wrap32; omega
+                      · intro x hx
+                        split
+                        · rename_i hxl
+                          unfold StOK at hx ⊢
+                          refine ⟨?_, ?_, hx.2.2⟩
+                          · show 0 ≤ wrap32 (x.inflow - len); unfold wrap32; omega
+                          · show wrap32 (x.inflow - len) + ((x.buf + len : Nat) : Int) ≤ 65536
+                            unfold wrap32
+                            have : ((x.buf + len : Nat) : Int) = (x.buf : Int) + (len : Int) := by simp
+                            omega
+                        · exact hx
                     split
-                    · rename_i hxl
-                      unfold StOK at hx ⊢
-                      refine ⟨?_, ?_, hx.2.2⟩
-                      · show 0 ≤ wrap32 (x.inflow - len); unfold wrap32; omega
-                      · show wrap32 (x.inflow - len) + ((x.buf + len : Nat) : Int) ≤ 65536
-                        unfold wrap32
-                        have : ((x.buf + len : Nat) : Int) = (x.buf : Int) + (len : Int) := by simp
-                        omega
-                    · exact hx
-          · apply inv_updSt _ _ _ h0
-            intro x hx
-            exact ⟨hx.1, hx.2.1, hx.2.2⟩
+                    · exact inv_reset _ _ _ hs2
+                    · exact hs2
+            · have hs2 : Inv (updSt ({ s with kick := false } : State) id fun x =>
+                  { x with isOpen := x.isOpen && !fin, eof := x.eof || fin }) := by
+                apply inv_updSt _ _ _ h0
+                intro x hx
+                exact ⟨hx.1, hx.2.1, hx.2.2⟩
+              split
+              · exact inv_reset _ _ _ hs2
+              · exact hs2
   | wu id delta =>
     simp only [step]
     have hd : I32 ((delta % 2147483648 : Nat) : Int) := by unfold I32; omega
